@@ -967,16 +967,27 @@ func (c *Conn) handleData(arg string) {
 	r := newDataReader(c)
 	code, enhancedCode, msg := dataErrorToStatus(c.Session().Data(r))
 	r.limited = false
-	io.Copy(ioutil.Discard, r) // Make sure all the data has been consumed
+	_, drainErr := io.Copy(ioutil.Discard, r) // Make sure all the data has been consumed
 	c.writeResponse(code, enhancedCode, msg)
+	if drainErr != nil {
+		// The end of the message was never reached (read timeout, connection
+		// error, too long line): whatever the peer sends next is message
+		// content, not commands.
+		c.Close()
+	}
 }
 
 // discardChunk skips the octets of a BDAT chunk that is not going to be passed
 // to the backend, so that they are not interpreted as commands.
 func (c *Conn) discardChunk(size uint64) {
 	c.lineLimitReader.LineLimit = 0
-	io.Copy(ioutil.Discard, io.LimitReader(c.text.R, int64(size)))
+	n, _ := io.Copy(ioutil.Discard, io.LimitReader(c.text.R, int64(size)))
 	c.lineLimitReader.LineLimit = c.server.MaxLineLength
+	if n < int64(size) {
+		// The rest of the chunk could not be read (read timeout, connection
+		// error): if it still arrives it must not be taken for commands.
+		c.Close()
+	}
 }
 
 func (c *Conn) handleBdat(arg string) {
@@ -1083,7 +1094,7 @@ func (c *Conn) handleBdat(arg string) {
 
 	c.lineLimitReader.LineLimit = 0
 
-	chunk := io.LimitReader(c.text.R, int64(size))
+	chunk := &io.LimitedReader{R: c.text.R, N: int64(size)}
 	n, err := io.Copy(pipe, chunk)
 	if err == nil && n < int64(size) {
 		// The connection ended in the middle of the chunk.
@@ -1096,7 +1107,10 @@ func (c *Conn) handleBdat(arg string) {
 
 		c.writeResponse(dataErrorToStatus(err))
 
-		if err == errPanic {
+		// chunk.N > 0: the rest of the chunk could not be skipped (read
+		// timeout, connection error); if it still arrives it must not be
+		// taken for commands.
+		if err == errPanic || chunk.N > 0 {
 			c.Close()
 		}
 
@@ -1230,11 +1244,11 @@ func (c *Conn) handleDataLMTP() {
 		// Fallback to using a single status for all recipients.
 		err := c.Session().Data(r)
 		r.limited = false
-		io.Copy(ioutil.Discard, r) // Make sure all the data has been consumed
+		_, drainErr := io.Copy(ioutil.Discard, r) // Make sure all the data has been consumed
 		for _, rcpt := range c.recipients {
 			status.SetStatus(rcpt, err)
 		}
-		done <- true
+		done <- drainErr == nil
 	} else {
 		go func() {
 			defer func() {
@@ -1253,8 +1267,8 @@ func (c *Conn) handleDataLMTP() {
 
 			status.fillRemaining(lmtpSession.LMTPData(r, status))
 			r.limited = false
-			io.Copy(ioutil.Discard, r) // Make sure all the data has been consumed
-			done <- true
+			_, drainErr := io.Copy(ioutil.Discard, r) // Make sure all the data has been consumed
+			done <- drainErr == nil
 		}()
 	}
 
@@ -1263,8 +1277,9 @@ func (c *Conn) handleDataLMTP() {
 		c.writeResponse(code, enchCode, "<"+rcpt+"> "+msg)
 	}
 
-	// If done gets false, the panic occured in LMTPData and the connection
-	// should be closed.
+	// If done gets false, a panic occured in LMTPData or the end of the
+	// message was never reached (read timeout, connection error): the
+	// connection should be closed, what follows on it are not commands.
 	if !<-done {
 		c.Close()
 	}
